@@ -6,6 +6,7 @@ SHARD = 150
 COQ_TARGETS = ['theories/Mux/MuxCorr.vo']
 CTYPE = 'muxcase'
 CHECKER = 'mux_check'
+RAISED_IS_FAILURE = True      # see main.safe_oracle
 TRUSTED = ['modelled not verified: RxPY synchronous delivery / Subject and publish fan-out order / AutoDetachObserver '
            'stop after on_error; Python dict insertion order, ==/hash on keys; copy.deepcopy freshness of scan seeds; '
            'absence of aliasing between emitted items and operator state',
@@ -151,6 +152,42 @@ def protocol_violation(log):
     return None
 
 
+def protocol_violation_with_errors(log):
+    """Boundary monitor for traces in which mux errors reach composite operators.  rxsci's operators release a
+    key's state on OnErrorMux but the key may go on (rs.error.ignore downstream), so an error leaves the key
+    in a state where BOTH continuations are legal: more events for it, or its re-creation.  Still breaches:
+    any event for a key that was never created or was completed, creating a live key that has not errored,
+    two live non-errored keys sharing a slot index, a key neither completed nor errored at stream completion."""
+    live, errored = {}, set()
+    for i, e in enumerate(log):
+        t = e[0]
+        if t in ('completed', 'fatal'):
+            left = [k for k in live if k not in errored]
+            if t == 'completed' and left:
+                return 'stream completed with live keys %s' % sorted(left)
+            continue
+        k = tuple(e[1])
+        if t == 'c':
+            if k in live and k not in errored:
+                return 'event %d: second creation of live key %s' % (i, list(k))
+            for k2 in live:
+                if k2 != k and k2[0] == k[0] and k2 not in errored:
+                    return 'event %d: key %s created while key %s with the same slot index %d is live' % (
+                        i, list(k), list(k2), k[0])
+            live[k] = True
+            errored.discard(k)
+        elif t in ('n', 'e', 'd'):
+            if k not in live:
+                return 'event %d: %s for key %s which is not live' % (
+                    i, {'n': 'item', 'e': 'error', 'd': 'completion'}[t], list(k))
+            if t == 'e':
+                errored.add(k)
+            elif t == 'd':
+                del live[k]
+                errored.discard(k)
+    return None
+
+
 def short(xs, n=160):
     from harness.pyval import dec
     try:
@@ -198,4 +235,27 @@ def entry_point_mismatch(ast, items, stateless=False):
         if norm(got) != norm(ref):
             return 'with_%s on a plain source emits %s; the pipeline on the explicit mux trace emits %s' % (
                 entry, json.dumps(norm(got))[:220], json.dumps(norm(ref))[:220])
+    return None
+
+
+def resubscription_mismatch(ast, trace, runs=2):
+    """One pipeline object subscribed several times in sequence (cold source replaying the trace): every
+    subscription must emit what the first one emitted, dead letters and their completion included.
+    tee_map is excluded: it is built on publish(), whose connectable cannot be subscribed again once completed
+    (on the unchanged code a second subscription of any tee_map completes empty, plain or multiplexed)."""
+    ast = strip_taps(ast)
+    if 'tee' in kinds(ast):
+        return None
+    try:
+        rs_ = muxlib.run_mux_twice(ast, trace, runs=runs)
+    except Exception as e:
+        return 're-subscription raised %s: %s' % (type(e).__name__, str(e)[:120])
+    for j in range(1, len(rs_)):
+        if rs_[j] != rs_[0]:
+            p = next((i for i, (a, b) in enumerate(zip(rs_[0]['steps'], rs_[j]['steps'])) if a != b), None)
+            if p is None:
+                return 'subscription %d of the same pipeline ends with %s, the first with %s' % (
+                    j + 1, json.dumps(rs_[j]['final'])[:160], json.dumps(rs_[0]['final'])[:160])
+            return 'subscription %d of the same pipeline emits %s while event %d is pushed, the first subscription emitted %s' % (
+                j + 1, json.dumps(rs_[j]['steps'][p])[:200], p, json.dumps(rs_[0]['steps'][p])[:200])
     return None
